@@ -564,21 +564,17 @@ def add_mul_wallace(
 
         c = cn
 
-    labels_a = []
-    labels_b = []
-    shift = 0
+    # the two remaining rows may have empty positions in the middle (when one of
+    # the numbers is much shorter than the other), so they are added column by column
+    res = []
+    carry = PLACEHOLDER_STR
     for i in range(n + m):
-        if c[i][0] != PLACEHOLDER_STR:
-            labels_a.append(c[i][0])
-        if c[i][1] != PLACEHOLDER_STR:
-            labels_b.append(c[i][1])
-        elif len(labels_b) == 0:
-            shift += 1
+        inp = [x for x in (c[i][0], c[i][1], carry) if x != PLACEHOLDER_STR]
+        col_sum = add_sum_n_bits(circuit, inp)
+        res.append(col_sum[0])
+        carry = col_sum[1] if len(col_sum) > 1 else PLACEHOLDER_STR
 
-    return reverse_if_big_endian(
-        add_sum_two_numbers_with_shift(circuit, shift, labels_a, labels_b)[: n + m],
-        big_endian,
-    )
+    return reverse_if_big_endian(res, big_endian)
 
 
 def add_mul_pow2_m1(
